@@ -8,6 +8,9 @@ import (
 )
 
 func c39(c *an.Check) {
+	// what the key file parser hands back is produced by the key decoders: their gates belong here too
+	keyUnmarshalDispatchGates(c)
+	ed25519PrivateKeyDecodeGates(c)
 	p := c.P
 	oow := p.Func("keypem/keyfile", "", "OpenOrWritePrivKey")
 	ppk := p.Func("keypem", "", "ParsePrivKeyPem")
